@@ -474,6 +474,10 @@ macro_rules! interp {
                         let coll = w[0] == "collect_lo";
                         (exec(0, || { if coll { regs[r] = lo_iter(ea, lo).collect(); } else { regs[r].extend(lo_iter(ea, lo)); } }),
                          exec(1, || { if coll { mirs[r] = lo_iter(eb, lo).collect(); } else { mirs[r].extend(lo_iter(eb, lo)); } })) }
+                    // clone_from r q: `Clone::clone_from` of the vector (the user's Clone may be armed to panic)
+                    "clone_from" => { let (r, q) = (reg(w[1]), reg(w[2])); assert!(r != q);
+                        (exec(0, || { let src = std::mem::take(&mut regs[q]); let res = catch_unwind(AssertUnwindSafe(|| regs[r].clone_from(&src))); regs[q] = src; if let Err(e) = res { std::panic::resume_unwind(e) } }),
+                         exec(1, || { let src = std::mem::take(&mut mirs[q]); let res = catch_unwind(AssertUnwindSafe(|| mirs[r].clone_from(&src))); mirs[q] = src; if let Err(e) = res { std::panic::resume_unwind(e) } })) }
                     "collect" => { let r = reg(w[1]); let tags = parse_list(w[2]);
                         let ea: Vec<T> = tags.iter().map(|t| mk(0, *t)).collect(); let eb: Vec<T> = tags.iter().map(|t| mk(1, *t)).collect();
                         (exec(0, || { regs[r] = ea.into_iter().collect(); }), exec(1, || { mirs[r] = eb.into_iter().collect(); })) }
@@ -595,7 +599,8 @@ macro_rules! interp {
                         (exec(0, || { tr::reserve_exact::<T, $V>(&mut regs[r], arg(2)); }), exec(1, || { mirs[r].reserve_exact(arg(2)); })) }
                     "tshrink_to_fit" => { let r = reg(w[1]);
                         (exec(0, || { tr::shrink_to_fit::<T, $V>(&mut regs[r]); }), exec(1, || { mirs[r].shrink_to_fit(); })) }
-                    "tcapacity" => { let r = reg(w[1]); (exec(0, || tr::capacity::<T, $V>(&regs[r])), exec(1, || {})) }
+                    // (the trait's answer, marked when the inherent method answers something else)
+                    "tcapacity" => { let r = reg(w[1]); (exec(0, || { let (t, i) = (tr::capacity::<T, $V>(&regs[r]), regs[r].capacity()); format!("{}{}", t, if t != i { format!(" parity=false:{}", i) } else { String::new() }) }), exec(1, || {})) }
                     "twith_capacity" => { let r = reg(w[1]);
                         (exec(0, || { regs[r] = tr::with_capacity::<T, $V>(arg(2)); }), exec(1, || { mirs[r] = Vec::with_capacity(arg(2)); })) }
                     "caps" => { let r = reg(w[1]);
@@ -904,6 +909,7 @@ interp!(run_hygd1, HygD1, HygD1Vec, HygD1Slice, HygD1SliceMut, HygD1Ref, HygD1Re
 interp!(run_hygd2, HygD2, HygD2Vec, HygD2Slice, HygD2SliceMut, HygD2Ref, HygD2RefMut, HygD2Ptr, HygD2PtrMut, HygD2Iter, HygD2IterMut, yes);
 interp!(run_hygd3, HygD3, HygD3Vec, HygD3Slice, HygD3SliceMut, HygD3Ref, HygD3RefMut, HygD3Ptr, HygD3PtrMut, HygD3Iter, HygD3IterMut, yes);
 interp!(run_hygd4, HygD4, HygD4Vec, HygD4Slice, HygD4SliceMut, HygD4Ref, HygD4RefMut, HygD4Ptr, HygD4PtrMut, HygD4Iter, HygD4IterMut, yes);
+interp!(run_npl, NPl, NPlVec, NPlSlice, NPlSliceMut, NPlRef, NPlRefMut, NPlPtr, NPlPtrMut, NPlIter, NPlIterMut, yes);
 interp!(run_n2, N2, N2Vec, N2Slice, N2SliceMut, N2Ref, N2RefMut, N2Ptr, N2PtrMut, N2Iter, N2IterMut, yes);
 interp!(run_zz, ZZ, ZZVec, ZZSlice, ZZSliceMut, ZZRef, ZZRefMut, ZZPtr, ZZPtrMut, ZZIter, ZZIterMut, yes);
 interp!(run_nmid, NMid, NMidVec, NMidSlice, NMidSliceMut, NMidRef, NMidRefMut, NMidPtr, NMidPtrMut, NMidIter, NMidIterMut, yes);
@@ -921,9 +927,9 @@ pub fn shape_desc(name: &str) -> Option<String> {
         "DrH" => d::<DrH>(), "DrN" => d::<DrN>(), "DrNN" => d::<DrNN>(), "DrP" => d::<DrP>(), "PlC" => d::<PlC>(), "NFirst" => d::<NFirst>(), "NFirstF" => d::<NFirstF>(),
         "Hyg" => d::<Hyg>(), "N2" => d::<N2>(), "ZZ" => d::<ZZ>(), "NMid" => d::<NMid>(), "NMidF" => d::<NMidF>(), "NLast" => d::<NLast>(), "NLastF" => d::<NLastF>(),
         "Deep" => d::<Deep>(), "DeepF" => d::<DeepF>(),
-        "HygD0" => d::<HygD0>(), "HygD1" => d::<HygD1>(), "HygD2" => d::<HygD2>(), "HygD3" => d::<HygD3>(), "HygD4" => d::<HygD4>(), _ => return None })
+        "NPl" => d::<NPl>(), "HygD0" => d::<HygD0>(), "HygD1" => d::<HygD1>(), "HygD2" => d::<HygD2>(), "HygD3" => d::<HygD3>(), "HygD4" => d::<HygD4>(), _ => return None })
 }
-pub const SHAPES: &[&str] = &["One", "Two", "Flat4", "Heap", "DrH", "DrN", "DrNN", "DrP", "PlC", "NFirst", "NFirstF", "Hyg", "N2", "ZZ", "NMid", "NMidF", "NLast", "NLastF", "Deep", "DeepF", "HygD0", "HygD1", "HygD2", "HygD3", "HygD4"];
+pub const SHAPES: &[&str] = &["One", "Two", "Flat4", "Heap", "DrH", "DrN", "DrNN", "DrP", "PlC", "NFirst", "NFirstF", "Hyg", "N2", "ZZ", "NMid", "NMidF", "NLast", "NLastF", "Deep", "DeepF", "NPl", "HygD0", "HygD1", "HygD2", "HygD3", "HygD4"];
 
 pub fn run_shape(name: &str, lines: &[&str], out: &mut String) -> bool {
     match name {
@@ -931,6 +937,6 @@ pub fn run_shape(name: &str, lines: &[&str], out: &mut String) -> bool {
         "DrH" => run_drh(lines, out), "DrN" => run_drn(lines, out), "DrNN" => run_drnn(lines, out), "DrP" => run_drp(lines, out), "PlC" => run_plc(lines, out), "NFirst" => run_nfirst(lines, out), "NFirstF" => run_nfirstf(lines, out),
         "Hyg" => run_hyg(lines, out), "N2" => run_n2(lines, out), "ZZ" => run_zz(lines, out), "NMid" => run_nmid(lines, out), "NMidF" => run_nmidf(lines, out), "NLast" => run_nlast(lines, out), "NLastF" => run_nlastf(lines, out),
         "Deep" => run_deep(lines, out), "DeepF" => run_deepf(lines, out),
-        "HygD0" => run_hygd0(lines, out), "HygD1" => run_hygd1(lines, out), "HygD2" => run_hygd2(lines, out), "HygD3" => run_hygd3(lines, out), "HygD4" => run_hygd4(lines, out), _ => return false }
+        "NPl" => run_npl(lines, out), "HygD0" => run_hygd0(lines, out), "HygD1" => run_hygd1(lines, out), "HygD2" => run_hygd2(lines, out), "HygD3" => run_hygd3(lines, out), "HygD4" => run_hygd4(lines, out), _ => return false }
     true
 }
